@@ -26,6 +26,7 @@ from ..cfg import explore, must_facts, canon_fact, holds
 from ..mutate import mutate, remove_stmts, replace_stmt, replace_expr, parse_stmt, parse_expr
 from ..model import AnalysisError
 from ..x_scope import own_nodes
+from ..x_flow import expanded_facts, resolve_local, unique_def
 
 TECHNIQUE = "syntactic timedelta lint with guard dominance on the CFG + exhaustive constant folding of the phrase arithmetic + idiom check of the digit-grouping loop"
 EXPLANATION = (
@@ -101,7 +102,7 @@ def rule_seconds(ck, fi):
                 top = node.ast if node.kind in ("stmt", "test") else a
                 ck.ob("C46.seconds-with-days", fi, top, guard_ok(node.id, base_txt, top),
                       "(%s).seconds is only the within-day remainder; it is used as a duration only where the same timedelta's days are known to be 0 (or via total_seconds())" % base_txt)
-    ck.floor("C46.seconds-with-days", nuse, 3, "uses of timedelta seconds")
+    ck.floor("C46.seconds-with-days", nuse, 1, "uses of timedelta seconds")
 
 
 def _phrase_returns(fi):
@@ -153,18 +154,36 @@ def _closure(e, var):
     raise q.NotFoldable(q.unparse(e))
 
 
-def rule_phrases(ck, fi):
-    cfg = fi.cfg
-    facts = must_facts(cfg)
-    phr = _phrase_returns(fi)
-    ck.floor("C46.phrase-unit", len(phr), 3, "relative phrase returns")
-    # the seconds alias
-    sec_alias = [n.targets[0].id for n in own_nodes(fi.node) if isinstance(n, ast.Assign) and len(n.targets) == 1 and isinstance(n.targets[0], ast.Name) and isinstance(n.value, ast.Attribute) and n.value.attr == "seconds"]
+def rule_phrases(ck, fd):
+    """The relative phrases live in format_date itself or in a private helper of the class that is handed the seconds count."""
+    sec_alias = [n.targets[0].id for n in own_nodes(fd.node) if isinstance(n, ast.Assign) and len(n.targets) == 1 and isinstance(n.targets[0], ast.Name) and isinstance(n.value, ast.Attribute) and n.value.attr == "seconds"]
     if len(sec_alias) != 1:
         raise AnalysisError("format_date: expected one `<name> = <timedelta>.seconds` alias, found %d" % len(sec_alias))
     S = sec_alias[0]
+    fd_facts = must_facts(fd.cfg)
+    total = 0
+    if _phrase_returns(fd):
+        total += _phrases_in(ck, fd, fd, S, None, fd_facts)
+    for node, c in fd.cfg.find(lambda x: isinstance(x, ast.Call) and isinstance(x.func, ast.Attribute) and q.dotted(x.func.value) == "self" and any(q.dotted(a) == S for a in x.args)):
+        qn = "Locale." + c.func.attr
+        if ck.repo.has_func(F, qn):
+            h = ck.repo.func(F, qn)
+            if _phrase_returns(h) and not c.keywords:
+                hp = [p for p in h.params() if p != "self"]
+                if len(hp) != len(c.args):
+                    raise AnalysisError("call of %s does not bind its parameters positionally" % qn)
+                hs = hp[[q.dotted(a) for a in c.args].index(S)]
+                total += _phrases_in(ck, fd, ck.use(h), hs, node, fd_facts)
+    ck.floor("C46.phrase-unit", total, 3, "relative phrase returns")
+
+
+def _phrases_in(ck, fd, fi, S, call_node, fd_facts):
+    cfg = fi.cfg
+    facts = must_facts(cfg)
+    phr = _phrase_returns(fi)
     for node, unit, num, whole in phr:
-        ck.ob("C46.relative-guard", fi, node.ast, holds(facts[node.id], "full_format", False), "a relative phrase is produced only when the full format was not forced (future dates force it)",
+        guard_facts = fd_facts[call_node.id] if call_node is not None else facts[node.id]
+        ck.ob("C46.relative-guard", fd, node.ast if call_node is None else call_node.ast, holds(guard_facts, "full_format", False), "a relative phrase is produced only when the full format was not forced (future dates force it)",
               construct="not-full_format " + unit)
         if unit not in UNITS:
             raise AnalysisError("relative phrase with unknown unit %r" % unit)
@@ -245,6 +264,7 @@ def rule_phrases(ck, fi):
         if isinstance(whole, ast.BinOp) and isinstance(whole.right, ast.Dict):
             vals = [q.unparse(x) for x in whole.right.values]
             ck.ob("C46.phrase-unit", fi, whole, vals == [q.unparse(num)], "the number shown is the number used to pick singular/plural", construct="shown-number " + unit)
+    return len(phr)
 
 
 def rule_future(ck, fi):
@@ -290,9 +310,11 @@ def rule_future(ck, fi):
         bound = None      # seconds, when a recognised fact bounds the future offset
         days0 = False
         secs_lt = None
-        for t, pol in facts[c.id]:
+        for t, pol in expanded_facts(fi, facts[c.id]):
             if D not in t or t.startswith("@"):
                 continue
+            if isinstance(ast.parse(t, mode="eval").body, ast.BoolOp):
+                continue  # its conjuncts / disjuncts were expanded separately
             te = ast.parse(t, mode="eval").body
             if not (isinstance(te, ast.Compare) and len(te.ops) == 1):
                 raise AnalysisError("format_date: unrecognised guard on the future offset: %s" % t)
@@ -349,7 +371,13 @@ def rule_grouping(ck, fi):
     if len(prm) != 1:
         raise AnalysisError("friendly_number does not take exactly the value")
     P = prm[0]
-    loops = [n for n in own_nodes(fi.node) if isinstance(n, ast.While) and isinstance(n.test, ast.Name)]
+    def _shrinks(w):
+        for st in w.body:
+            if isinstance(st, ast.Assign) and len(st.targets) == 1 and isinstance(st.targets[0], ast.Name) and _is_slice(st.value, st.targets[0].id, None, None) is not None:
+                return st.targets[0].id
+        return None
+
+    loops = [n for n in own_nodes(fi.node) if isinstance(n, ast.While) and _shrinks(n) is not None]
     if not loops:
         # format-spec grouping: f"{value:,}" / format(value, ",") / "{:,}".format(value)
         ok = False
@@ -368,7 +396,12 @@ def rule_grouping(ck, fi):
     if len(loops) != 1:
         raise AnalysisError("friendly_number: expected one chunking loop")
     lp = loops[0]
-    X = lp.test.id
+    X = _shrinks(lp)
+    try:
+        runs_ok = bool(q.fold(lp.test, {X: "1"})) and bool(q.fold(lp.test, {X: "1234"})) and not bool(q.fold(lp.test, {X: ""}))
+    except q.NotFoldable as e:
+        raise AnalysisError("friendly_number: loop condition %s not foldable over the digit string (%s)" % (q.unparse(lp.test), e))
+    ck.ob("C46.grouping", fi, lp.test, runs_ok, "the chunking loop runs until the digit string is used up")
     # loop body: parts.append(X[-k:]) ; X = X[:-k]
     take = shrink = None
     parts = None
@@ -400,7 +433,17 @@ def rule_grouping(ck, fi):
     rev = (isinstance(a, ast.Call) and q.dotted(a.func) == "reversed" and q.dotted(a.args[0]) == parts) or (
         isinstance(a, ast.Subscript) and q.dotted(a.value) == parts and isinstance(a.slice, ast.Slice) and a.slice.lower is None and a.slice.upper is None and a.slice.step is not None and q.unparse(a.slice.step) == "-1")
     direct = q.dotted(a) == parts
-    ck.ob("C46.grouping", fi, j, q.is_const(j.func.value, ",") and ((rev and not prepend) or (direct and prepend)), "the chunks are joined with ',' most-significant first")
+    # an in-place parts.reverse() on every path between the loop and the join
+    is_rev = lambda n: n.kind == "stmt" and isinstance(n.ast, ast.Expr) and q.is_call(n.ast.value, parts + ".reverse") and not any(x is lp for x in q.ancestors(q.parent_map(fi.node), n.ast))
+    from ..rules import event_facts as _ef
+    revf = _ef(fi, {"rev": is_rev}, cond_facts=False)
+    jn = fi.cfg.nodes_for(j)
+    reversed_inplace = bool(jn) and all(("@rev", True) in revf[n.id] for n in jn)
+    n_rev = len(fi.cfg.stmt_nodes(is_rev))
+    if n_rev > 1 or (n_rev == 1 and not reversed_inplace):
+        raise AnalysisError("friendly_number: parts.reverse() is not applied exactly once on every path (unknown idiom)")
+    order_ok = (rev and not prepend and not reversed_inplace) or (direct and prepend and not reversed_inplace) or (direct and reversed_inplace and not prepend)
+    ck.ob("C46.grouping", fi, j, q.is_const(j.func.value, ",") and order_ok, "the chunks are joined with ',' most-significant first")
     # sign-free: reaching definitions of X before the loop
     cfg = fi.cfg
     facts = must_facts(cfg)
@@ -468,6 +511,13 @@ def rule_utc(ck, fi):
         elif nm == "replace" and q.kwarg(c, "tzinfo") is not None:
             n += 1
             ck.ob("C46.same-time-scale", fi, c, "utc" in q.unparse(q.kwarg(c, "tzinfo")).lower(), "naive datetimes are declared UTC")
+            recv = q.receiver(c)
+            tzfacts = must_facts(fi.cfg)
+            nodes = fi.cfg.nodes_for(c)
+            naive = bool(nodes) and recv is not None and all(
+                any(pol and t in ("%s.tzinfo is None" % recv, "%s.utcoffset() is None" % recv) for t, pol in expanded_facts(fi, tzfacts[nd.id])) for nd in nodes)
+            ck.ob("C46.same-time-scale", fi, c, naive, "the time zone is *re-labelled* only for naive datetimes (tzinfo is None); an aware datetime in another zone keeps its instant",
+                  construct="relabel-only-naive " + q.unparse(c))
         elif nm == "astimezone":
             n += 1
     ck.floor("C46.same-time-scale", n, 2, "time-scale conversions in format_date")
@@ -530,6 +580,7 @@ MUTANTS = [
     ("seeded C46-adv1: hours computed from already-rounded minutes", _m("format_date", _double_rounding), "C46.phrase-unit"),
     ("minutes truncated instead of rounded", _m("format_date", replace_expr(lambda n: isinstance(n, ast.Call) and _src(n) == "round(seconds / 60.0)", lambda n: parse_expr("int(seconds / 60.0)"))), "C46.phrase-unit"),
     ("hours by floor division", _m("format_date", replace_expr(lambda n: isinstance(n, ast.Call) and _src(n) == "round(seconds / (60.0 * 60))", lambda n: parse_expr("seconds // 3600"))), "C46.phrase-unit"),
+    ("seeded C46-adv2: aware datetimes in other zones re-labelled as UTC", _m("format_date", replace_expr(lambda n: isinstance(n, ast.Compare) and _src(n) == "date.tzinfo is None", lambda n: parse_expr("date.tzinfo is not datetime.timezone.utc"))), "C46.same-time-scale"),
     ("numeric timestamps converted in local time then labelled UTC", _m("format_date", replace_expr(lambda n: isinstance(n, ast.Call) and _src(n.func).endswith("fromtimestamp"), lambda n: ast.Call(func=n.func, args=n.args[:1], keywords=[]))), "C46.same-time-scale"),
     ("undo F26a repair: clock-skew window tested on .seconds alone", _m("format_date", replace_expr(lambda n: isinstance(n, ast.Call) and _src(n).endswith(".total_seconds()"), lambda n: ast.Attribute(value=n.func.value, attr="seconds", ctx=ast.Load()))), "C46.seconds-with-days"),
     ("undo F26b repair: signed text is chunked", _m("friendly_number", replace_expr(lambda n: isinstance(n, ast.Call) and _src(n) == "abs(value)", lambda n: ast.Name(id="value", ctx=ast.Load()))), "C46.sign-free-grouping"),
